@@ -160,7 +160,9 @@ def as_operand(e):
     return ("grp", e)
 
 
-KINDS = ["paren", "reassoc", "extract", "dup", "never", "negnever"]
+KINDS = ["paren", "reassoc", "extract", "dup", "never", "negnever",
+         # two rewrites composed at one site: the abandoned first alternative lives in a fresh silent rule
+         "never+extract", "negnever+extract", "dup+extract"]
 
 
 def rewrite(rules, rng: random.Random, kind: str, counter: list[int]):
@@ -194,9 +196,22 @@ def rewrite(rules, rng: random.Random, kind: str, counter: list[int]):
         new = ("grp", ("alt", (wrap_seq(sub), wrap_seq(sub))))
     elif kind == "never":
         new = ("grp", ("alt", (("seq", (term(sub), ("str", "\U0010FFFD\U0010FFFD"))), wrap_seq(sub))))
-    else:
+    elif kind == "negnever":
         new = ("grp", ("alt", (("seq", (("not", as_operand_if_needed(sub)), ("str", "\U0010FFFD\U0010FFFD"))),
                                wrap_seq(sub))))
+    else:
+        counter[0] += 1
+        fresh = f"xtr_{counter[0]}"
+        if kind == "never+extract":
+            body = ("seq", (term(sub), ("str", "\U0010FFFD\U0010FFFD")))
+            new = ("grp", ("alt", (("ref", fresh), wrap_seq(sub))))
+        elif kind == "negnever+extract":
+            body = ("seq", (("not", as_operand_if_needed(sub)), ("str", "\U0010FFFD\U0010FFFD")))
+            new = ("grp", ("alt", (("ref", fresh), wrap_seq(sub))))
+        else:  # dup+extract: (s | s) with s = _{ e }
+            body = sub
+            new = ("grp", ("alt", (("ref", fresh), ("ref", fresh))))
+        extra.append((fresh, "_", (), body))
     new_expr = put(expr, path, new) if path else new
     new_rules = list(rules)
     new_rules[ri] = (name, mod, docs, new_expr)
